@@ -10,6 +10,8 @@ Anything the RFC forbids is recorded as a violation with a mechanism id.
 
 from __future__ import annotations
 
+import weakref
+
 import re
 from typing import Any, Callable
 
@@ -258,7 +260,8 @@ class Shadow:
     # -- glass box ------------------------------------------------------------
 
     def glass_check(self, resp: Resp) -> None:
-        state = getattr(self.conn, 'state', None)
+        ref = getattr(self.conn, 'state_ref', None)
+        state = ref() if ref is not None else None
         try:
             sel = state._selected
             if sel is None:
@@ -300,7 +303,9 @@ def install_glass() -> bool:
                 super().__init__(*a, **kw)
                 try:
                     writer = socket_info.get()._transport
-                    writer.conn.state = self
+                    # weak: the harness must not keep the state (and with
+                    # it the selection) of a finished connection alive
+                    writer.conn.state_ref = weakref.ref(self)
                 except Exception:
                     pass
 
